@@ -115,5 +115,42 @@ package frozenfunds
 //@   loop 0 invariant idx: -1 <= rangeindex && (rangeindex < len(ff.List) || (rangeindex == -1 && len(ff.List) == 0)) && ff == m && ff.List == old(m.List)
 //@   loop 0 invariant sum: ledgerDelta(f.bus.checker, anyFundCoin()) == old(ledgerDelta(f.bus.checker, anyFundCoin())) - old(fundSum(m.List, rangeindex + 1, anyFundCoin()))
 
+//@ # ---------------------------------------------------------------- C09: Commit writes every dirty bucket and clears the dirty set
+//@ # ffPath: the tree key of a height (ASSUMED injective: prefix + big-endian height)
+//@ spec ffPath(h int) string
+//@ axiom ffPathInj: forall a int, b int :: ffPath(a) == ffPath(b) ==> a == b
+//@ func getPath
+//@   trusted
+//@   ensures result != nil && fresh(result) && bytestr(result) == ffPath(height)
+//@   modifies nothing
+//@ # ASSUMED (sort and map-key collection are not modelled): the ordered key list holds exactly the dirty heights, once each
+//@ func (*FrozenFunds).getOrderedDirty
+//@   trusted
+//@   ensures allkeys: forall h uint64 :: (h in f.dirty) ==> exists i int :: 0 <= i && i < len(result) && result[i] == h
+//@   ensures onlykeys: forall i int :: 0 <= i && i < len(result) ==> (result[i] in f.dirty)
+//@   ensures once: forall i int, j int :: 0 <= i && i < j && j < len(result) ==> result[i] != result[j]
+//@   ensures fresh(result)
+//@   modifies nothing
+//@ # C09: on success every bucket that was registered dirty has been written under its own key with its current
+//@ # encoding - or removed from the tree and from the cache when it is marked deleted - and nothing stays registered
+//@ # (stated for an arbitrary height anyH())
+//@ func (*FrozenFunds).Commit
+//@   serves C09
+//@   let h = anyH()
+//@   let m = old(f.list[h])
+//@   requires f != nil && f.dirty != nil && f.list != nil && db != nil && 0 <= h && h <= 18446744073709551615
+//@   requires cached: forall k uint64 :: (k in f.dirty) ==> (k in f.list) && f.list[k] != nil && allocated(f.list[k])
+//@   ensures [C09] written: result == nil && old(h in f.dirty) && !old(m.deleted) ==> mtreeVal(db, ffPath(h)) == rlpOf(m)
+//@   ensures [C09] removed: result == nil && old(h in f.dirty) && old(m.deleted) ==> len(mtreeVal(db, ffPath(h))) == 0 && !(h in f.list)
+//@   ensures [C09] cleared: result == nil ==> !(h in f.dirty)
+//@   loop 0 invariant idx: -1 <= rangeindex && (rangeindex < len(dirty) || (rangeindex == -1 && len(dirty) == 0))
+//@   loop 0 invariant keys: forall i int :: 0 <= i && i < len(dirty) ==> old(dirty[i] in f.dirty)
+//@   loop 0 invariant once: forall i int, j int :: 0 <= i && i < j && j < len(dirty) ==> dirty[i] != dirty[j]
+//@   loop 0 invariant pending: forall i int :: rangeindex < i && i < len(dirty) ==> (dirty[i] in f.dirty) && (dirty[i] in f.list) && f.list[dirty[i]] == old(f.list[dirty[i]])
+//@   loop 0 invariant subset: forall k uint64 :: (k in f.dirty) ==> old(k in f.dirty)
+//@   loop 0 invariant gone: forall i int :: 0 <= i && i <= rangeindex ==> !(dirty[i] in f.dirty)
+//@   loop 0 invariant flags: allof(Model.deleted) == old(allof(Model.deleted))
+//@   loop 0 invariant done: forall i int :: 0 <= i && i <= rangeindex && dirty[i] == h ==> (old(m.deleted) ? (len(mtreeVal(db, ffPath(h))) == 0 && !(h in f.list)) : mtreeVal(db, ffPath(h)) == rlpOf(m))
+
 //@ # ---------------------------------------------------------------- lock discipline (C25)
 //@ guarded FrozenFunds.list, FrozenFunds.dirty by lock
